@@ -20,6 +20,7 @@ import (
 	"io"
 	"log"
 	"reflect"
+	"runtime/debug"
 	"sort"
 	"strings"
 	"time"
@@ -557,6 +558,8 @@ func runSeq(r *rep.Report, rng *prng.R, e2e bool) {
 			slotWasDir = createQType&p9p.QTDIR != 0
 		}
 		panicked := false
+		panicText, nilWhat := "", "" // the implementation panicked / returned nothing and no error
+		afk := 0
 		var walkRes struct {
 			qids []p9p.Qid
 			ent  p9p.Dirent
@@ -565,14 +568,18 @@ func runSeq(r *rep.Report, rng *prng.R, e2e bool) {
 		func() {
 			defer func() {
 				if x := recover(); x != nil {
+					st := string(debug.Stack())
+					if !implPanic(st) {
+						panic(x) // a fault of the harness itself
+					}
 					panicked = true
+					panicText = fmt.Sprintf("%v\n%s", x, st)
 					res = sx.Sym("panic")
 				}
 			}()
 			switch kind {
 			case "attach":
 				uname, aname := string(rng.Bytes(rng.Intn(4))), string(rng.Bytes(rng.Intn(4)))
-				afk := 0
 				var af p9p.AuthFile
 				if rng.Chance(1, 12) {
 					afk = 2
@@ -582,6 +589,8 @@ func runSeq(r *rep.Report, rng *prng.R, e2e bool) {
 				e, err := cfs.Attach(ctx, uname, aname, af)
 				if err != nil {
 					res = sx.Sym("err")
+				} else if isNilEnt(e) {
+					res, nilWhat = sx.Sym("nil-entry"), "Attach returned no entry and no error"
 				} else {
 					f := entFid(e)
 					res = sx.L(sx.Sym("ent"), sx.U(uint64(f)), qidS(e.Qid()))
@@ -593,6 +602,8 @@ func runSeq(r *rep.Report, rng *prng.R, e2e bool) {
 				walkRes.qids, walkRes.ent, walkRes.err = qids, e, err
 				var w p9p.Warning
 				switch {
+				case err == nil && isNilEnt(e):
+					res, nilWhat = sx.Sym("nil-entry"), fmt.Sprintf("Walk(%q) returned no entry and no error", walkNames)
 				case err == nil:
 					f := entFid(e)
 					ql := make([]sx.S, len(qids))
@@ -618,14 +629,18 @@ func runSeq(r *rep.Report, rng *prng.R, e2e bool) {
 				f, err := ent.Open(ctx, mode)
 				if err != nil {
 					res = sx.Sym("err")
+				} else if f == nil {
+					res, nilWhat = sx.Sym("nil-entry"), "Open returned no file and no error"
 				} else {
 					res = sx.L(sx.Sym("file"), sx.I(int64(f.IOUnit())))
 				}
 			case "opendir":
 				opHead = []sx.S{sx.Sym("opendir"), sx.I(int64(si))}
 				next, err := ent.OpenDir(ctx)
-				if err != nil || next == nil {
+				if err != nil {
 					res = sx.Sym("err")
+				} else if next == nil {
+					res, nilWhat = sx.Sym("nil-entry"), "OpenDir returned no iterator and no error"
 				} else {
 					res = sx.Sym("dir")
 				}
@@ -643,6 +658,8 @@ func runSeq(r *rep.Report, rng *prng.R, e2e bool) {
 				opHead = []sx.S{sx.Sym("create"), sx.I(int64(si)), sx.Str(name), sx.U(uint64(perm)), sx.U(uint64(mode))}
 				e, f, err := ent.Create(ctx, name, perm, mode)
 				switch {
+				case err == nil && (isNilEnt(e) || f == nil):
+					res, nilWhat = sx.Sym("nil-entry"), fmt.Sprintf("Create(%q) returned no entry or no file, and no error", name)
 				case err == nil:
 					nf := entFid(e)
 					res = sx.L(sx.Sym("created"), sx.U(uint64(nf)), qidS(e.Qid()), sx.I(int64(f.IOUnit())))
@@ -685,7 +702,6 @@ func runSeq(r *rep.Report, rng *prng.R, e2e bool) {
 				}
 			}
 		}()
-		_ = panicked
 		issued := sp.calls[ncalls:]
 		var callS, ans sx.S = sx.Sym("none"), sx.Sym("none")
 		if len(issued) >= 1 {
@@ -703,6 +719,16 @@ func runSeq(r *rep.Report, rng *prng.R, e2e bool) {
 		c := caseSoFar()
 
 		// ---- oracles, from the property text
+		if panicked {
+			nPanics++
+			r.Fail("cfs."+kind+".panic", fmt.Sprintf("%s panicked inside the client layer: %s", kind, strings.SplitN(panicText, "\n", 2)[0]), c, map[string]interface{}{"stack": panicText})
+		}
+		if nilWhat != "" {
+			r.Fail("cfs."+kind+".nil-entry", nilWhat, c, nil)
+		}
+		if kind == "attach" && afk == 0 && len(issued) == 0 && !panicked {
+			r.Fail("cfs.attach.not-forwarded", "Attach (no auth file) issued no session call", c, nil)
+		}
 		if len(issued) > 1 {
 			r.Fail("cfs."+kind+".calls", fmt.Sprintf("%s issued %d session calls", kind, len(issued)), c, nil)
 		}
@@ -734,10 +760,10 @@ func runSeq(r *rep.Report, rng *prng.R, e2e bool) {
 					}
 				}
 			}
-			if kind == "create" && ic.err == nil && slots[si].ent.Qid() != createdQid(ic) {
+			if kind == "create" && ic.err == nil && !panicked && nilWhat == "" && slots[si].ent.Qid() != createdQid(ic) {
 				r.Fail("cfs.create.qid", fmt.Sprintf("Create: the session answered qid %v, the entry returned has qid %v", createdQid(ic), slots[si].ent.Qid()), c, nil)
 			}
-			if kind == "walk" {
+			if kind == "walk" && !panicked && nilWhat == "" {
 				if ic.err == nil && ic.complete {
 					// the server completed the walk: success, entry for the walked-to file
 					if strings.Contains(strings.Join(walkNames, "\x00"), ".") || len(walkNames) != len(ic.names) {
@@ -763,7 +789,7 @@ func runSeq(r *rep.Report, rng *prng.R, e2e bool) {
 				}
 			}
 		}
-		if kind == "walk" {
+		if kind == "walk" && !panicked {
 			// the caller's name list is the caller's: the call must leave it as it was
 			if len(walkArg) != len(walkNames) || strings.Join(walkArg, "\x00") != strings.Join(walkNames, "\x00") {
 				r.Fail("cfs.walk.argument-modified", fmt.Sprintf("Walk was handed %q; after the call the caller's slice holds %q", walkNames, walkArg), c, nil)
@@ -850,6 +876,7 @@ func runSeq(r *rep.Report, rng *prng.R, e2e bool) {
 func createdQid(c call) p9p.Qid { return c.qids[0] }
 
 var opResults = map[string]int{}
+var nPanics = 0
 
 type otherAuthFile struct{}
 
@@ -879,6 +906,7 @@ func main() {
 		runSeq(r, rng.Fork(), true)
 	}
 	r.Extra["operations_by_result"] = opResults
+	defer func() { r.Extra["implementation_panics"] = nPanics }()
 	// long histories: past 2^16 fid allocations with the root and early entries live
 	runLong(r, 65536, 90000, 0)
 	runLong(r, 8192, 85000, 997)
